@@ -14,7 +14,7 @@ import (
 	crand "crypto/rand"
 	"crypto/rsa"
 	"crypto/sha256"
-	"crypto/sha512"
+	_ "crypto/sha512" // registers SHA-384/512 for crypto.Hash.New
 	"crypto/x509"
 	"encoding/asn1"
 	"encoding/base64"
@@ -167,8 +167,6 @@ func signRaw(alg string, k *keyT, in []byte) []byte {
 	}
 	panic("signRaw: " + alg)
 }
-
-var _ = sha512.New
 
 // ---- raw JWS ---------------------------------------------------------------------------------------------
 
@@ -677,7 +675,10 @@ func variants(d *dagT, t *node, ks *keyring, rnd *rand.Rand) []*offerT {
 	b.sv("hdr/cty-no-slash", func(s *spec, f *facts) { s.h = s.h.set("cty", `"text"`); f.unspec = "cty-absent-or-not-a-mime-type" })
 	b.sv("hdr/remove-crit", func(s *spec, f *facts) { s.h = s.h.del("crit"); f.unspec = "crit-list-absent-or-incomplete" })
 	b.sv("hdr/crit-empty", func(s *spec, f *facts) { s.h = s.h.set("crit", `[]`); f.unspec = "crit-list-absent-or-incomplete" })
-	b.sv("hdr/crit-partial", func(s *spec, f *facts) { s.h = s.h.set("crit", `["sigt","lc"]`); f.unspec = "crit-list-absent-or-incomplete" })
+	b.sv("hdr/crit-partial", func(s *spec, f *facts) {
+		s.h = s.h.set("crit", `["sigt","lc"]`)
+		f.unspec = "crit-list-absent-or-incomplete"
+	})
 	b.sv("hdr/crit-unknown-extension", func(s *spec, f *facts) {
 		s.h = s.h.set("crit", `["sigt","ver","prevs","lc","x-unknown"]`).set("x-unknown", `1`)
 		f.unspec = "crit-names-unknown-extension"
@@ -691,7 +692,10 @@ func variants(d *dagT, t *node, ks *keyring, rnd *rand.Rand) []*offerT {
 		{"ver-string", "ver", `"2"`}, {"ver-unsupported-3", "ver", `3`}, {"ver-unsupported-0", "ver", `0`}, {"ver-null", "ver", `null`},
 	} {
 		rt := rt
-		b.sv("hdr/retype-"+rt[0], func(s *spec, f *facts) { s.h = s.h.set(rt[1], rt[2]); f.bad = "header " + rt[1] + " has the wrong type or an unsupported value" })
+		b.sv("hdr/retype-"+rt[0], func(s *spec, f *facts) {
+			s.h = s.h.set(rt[1], rt[2])
+			f.bad = "header " + rt[1] + " has the wrong type or an unsupported value"
+		})
 	}
 	if isJWK {
 		for _, rt := range [][2]string{{"string", `"x"`}, {"null", `null`}, {"number", `5`}, {"array", `[]`}} {
@@ -740,7 +744,10 @@ func variants(d *dagT, t *node, ks *keyring, rnd *rand.Rand) []*offerT {
 		s.hjson = "{ " + strings.Join(parts, " ,\r\n  ") + "\n}"
 		f.benign = true
 	})
-	b.sv("hdr/json-surrounding-whitespace", func(s *spec, f *facts) { s.hjson = " " + s.h.json() + "\n"; f.unspec = "header-json-surrounded-by-whitespace" })
+	b.sv("hdr/json-surrounding-whitespace", func(s *spec, f *facts) {
+		s.hjson = " " + s.h.json() + "\n"
+		f.unspec = "header-json-surrounded-by-whitespace"
+	})
 
 	// -- algorithms
 	b.sv("alg/none-empty-signature", func(s *spec, f *facts) { s.h = s.h.set("alg", `"none"`); s.sigAlg = "none"; f.bad = "alg none" })
@@ -749,7 +756,10 @@ func variants(d *dagT, t *node, ks *keyring, rnd *rand.Rand) []*offerT {
 	b.sv("alg/ES256K", func(s *spec, f *facts) { s.h = s.h.set("alg", `"ES256K"`); f.bad = "alg ES256K" })
 	b.sv("alg/lowercase", func(s *spec, f *facts) { s.h = s.h.set("alg", `"es256"`); f.bad = "alg es256" })
 	if t.sp.key.ec != nil {
-		b.sv("alg/PS256-over-ec-key", func(s *spec, f *facts) { s.h = s.h.set("alg", `"PS256"`); f.bad = "PS256 header, ECDSA signature and key" })
+		b.sv("alg/PS256-over-ec-key", func(s *spec, f *facts) {
+			s.h = s.h.set("alg", `"PS256"`)
+			f.bad = "PS256 header, ECDSA signature and key"
+		})
 	}
 	if isJWK {
 		b.sv("alg/RS256-valid-rsa-signature", func(s *spec, f *facts) {
@@ -839,7 +849,10 @@ func variants(d *dagT, t *node, ks *keyring, rnd *rand.Rand) []*offerT {
 			s.h = s.h.set("jwk", `{"kty":"oct","k":"`+b64.EncodeToString(s.key.der)+`"}`)
 			f.bad = "symmetric jwk"
 		})
-		b.sv("key/jwk-of-other-key", func(s *spec, f *facts) { s.h = s.h.set("jwk", ks.attacker.pub); f.bad = "signature not by the embedded key" })
+		b.sv("key/jwk-of-other-key", func(s *spec, f *facts) {
+			s.h = s.h.set("jwk", ks.attacker.pub)
+			f.bad = "signature not by the embedded key"
+		})
 		b.sv("key/signed-by-other-key", func(s *spec, f *facts) {
 			s.key, s.sigAlg = ks.attacker, "ES256"
 			f.signer, f.bad = ks.attacker, "signature not by the embedded key"
@@ -852,7 +865,10 @@ func variants(d *dagT, t *node, ks *keyring, rnd *rand.Rand) []*offerT {
 			f.signer, f.bad = ks.attacker, "both kid and jwk"
 		})
 		b.sv("kid/signed-by-other-key", func(s *spec, f *facts) { s.key, s.sigAlg, f.signer = ks.attacker, "ES256", ks.attacker })
-		b.sv("kid/unknown-did", func(s *spec, f *facts) { f.kid = "did:nuts:" + d.tag + "nobody#k1"; s.h = s.h.set("kid", strconv.Quote(f.kid)) })
+		b.sv("kid/unknown-did", func(s *spec, f *facts) {
+			f.kid = "did:nuts:" + d.tag + "nobody#k1"
+			s.h = s.h.set("kid", strconv.Quote(f.kid))
+		})
 		b.sv("kid/unknown-fragment", func(s *spec, f *facts) { f.kid = t.did.id + "#nope"; s.h = s.h.set("kid", strconv.Quote(f.kid)) })
 		b.sv("kid/not-a-did-url", func(s *spec, f *facts) { f.kid = "k1"; s.h = s.h.set("kid", `"k1"`) })
 		b.sv("kid/empty", func(s *spec, f *facts) { s.h = s.h.set("kid", `""`); f.bad = "neither kid nor jwk" })
@@ -950,7 +966,10 @@ func variants(d *dagT, t *node, ks *keyring, rnd *rand.Rand) []*offerT {
 
 	// -- prevs
 	unknown := randomHash(rnd)
-	b.sv("prevs/only-unknown", func(s *spec, f *facts) { f.prevs = []hash.SHA256Hash{unknown}; s.h = s.h.set("prevs", hashJSON(f.prevs)) })
+	b.sv("prevs/only-unknown", func(s *spec, f *facts) {
+		f.prevs = []hash.SHA256Hash{unknown}
+		s.h = s.h.set("prevs", hashJSON(f.prevs))
+	})
 	b.sv("prevs/one-unknown-added", func(s *spec, f *facts) { f.prevs = append(f.prevs, unknown); s.h = s.h.set("prevs", hashJSON(f.prevs)) })
 	b.sv("prevs/self-reference-to-original", func(s *spec, f *facts) { f.prevs = append(f.prevs, t.ref); s.h = s.h.set("prevs", hashJSON(f.prevs)) })
 	b.sv("prevs/original-as-prev-clock-adjusted", func(s *spec, f *facts) {
@@ -963,14 +982,20 @@ func variants(d *dagT, t *node, ks *keyring, rnd *rand.Rand) []*offerT {
 		}
 	}).slot = "any"
 	if len(t.prevs) > 0 {
-		b.sv("prevs/one-replaced-by-unknown", func(s *spec, f *facts) { f.prevs[rnd.Intn(len(f.prevs))] = unknown; s.h = s.h.set("prevs", hashJSON(f.prevs)) })
+		b.sv("prevs/one-replaced-by-unknown", func(s *spec, f *facts) {
+			f.prevs[rnd.Intn(len(f.prevs))] = unknown
+			s.h = s.h.set("prevs", hashJSON(f.prevs))
+		})
 		b.sv("prevs/duplicated", func(s *spec, f *facts) {
 			f.prevs = append(f.prevs, f.prevs[0])
 			s.h = s.h.set("prevs", hashJSON(f.prevs))
 			f.unspec = "duplicate-prevs"
 		})
 		b.sv("prevs/empty-clock-kept", func(s *spec, f *facts) { f.prevs = nil; s.h = s.h.set("prevs", `[]`) })
-		b.sv("prevs/uppercase-hex", func(s *spec, f *facts) { s.h = s.h.set("prevs", strings.ToUpper(prevsJSON)); f.unspec = "hex-in-uppercase" })
+		b.sv("prevs/uppercase-hex", func(s *spec, f *facts) {
+			s.h = s.h.set("prevs", strings.ToUpper(prevsJSON))
+			f.unspec = "hex-in-uppercase"
+		})
 		if isJWK {
 			b.sv("root/second-root", func(s *spec, f *facts) {
 				f.prevs, f.lc = nil, 0
@@ -1061,7 +1086,10 @@ func variants(d *dagT, t *node, ks *keyring, rnd *rand.Rand) []*offerT {
 	}).payload = t.content
 	b.sv("payload/short-hash", func(s *spec, f *facts) { s.payload = s.payload[:62]; f.bad = "payload is not a SHA-256 hash" })
 	b.sv("payload/not-hex", func(s *spec, f *facts) { s.payload = "zz" + s.payload[2:]; f.bad = "payload is not a SHA-256 hash" })
-	b.sv("payload/binary-hash", func(s *spec, f *facts) { s.payload = string(f.phash.Slice()); f.bad = "payload is not a hex SHA-256 hash" })
+	b.sv("payload/binary-hash", func(s *spec, f *facts) {
+		s.payload = string(f.phash.Slice())
+		f.bad = "payload is not a hex SHA-256 hash"
+	})
 	b.sv("payload/empty", func(s *spec, f *facts) { s.payload = ""; f.phash = hash.EmptyHash(); f.unspec = "empty-jws-payload" }).payload = nil
 	b.sv("payload/uppercase-hex", func(s *spec, f *facts) { s.payload = strings.ToUpper(s.payload); f.unspec = "hex-in-uppercase" })
 
